@@ -541,7 +541,7 @@ pub fn main(args: Args) {
 
     let mut rng = Rng::new(args.seed);
     let mut cases: Vec<(String, Dataset, Vec<Cmd>)> = corpus().into_iter().map(|(d, c)| ("corpus".to_string(), d, c)).collect();
-    let (n2, n3, sample3) = if args.thorough() { (10, 10, usize::MAX) } else { (5, 2, 12) };
+    let (n2, n3, sample3) = if args.thorough() { (30, 12, usize::MAX) } else { (8, 3, usize::MAX) };
     let inter2 = all_interleavings(2);
     let inter3 = all_interleavings(3);
     for _ in 0..n2 {
